@@ -680,4 +680,206 @@ def recoverStep (st : JState) (r : JRec) : JState :=
 
 def recover (rs : List JRec) : JState := rs.foldl recoverStep JState.empty
 
+/-! ## What the code DOES with a journal at a restart: `reload`
+
+`reload now journal` mirrors the real per-record pipeline of a start-up at second `now`, for journals without require-ack /
+priority flags:
+1. `LoadAofFile` drops the record when `skippedAt` says it is expired (each record on its own);
+2. `HandleLoad` turns it into a command with `Expried := loadRemaining … now` and the FROM_AOF flag, Timeout 0;
+3. `LockDB.Lock` / `UnLock` (db.go): same LockId held → update-when-locked (0x02: value first, then `CheckLockedEqual` — an
+   "equal" update is refused —, then `UpdateLockedLock`) or re-entrant level (`depth ≤ Rcount`, nothing when `Expried = 0`);
+   otherwise admission by `doLock` (regenerated kernels `Slock.Gen.K`), a hold only when `Expried > 0`; UNLOCK takes one level
+   (`depth > 1 ∧ Rcount > 0`) or the whole hold.
+The value of a key lives in its lock manager, which survives its last hold while a dead lock object still sits in the SHORT
+expiry wheel (`zombie`); a lock in the LONG table (persist-now flag 0x100 and more than 5 s to live when it was (re)armed) is
+freed at once. Millisecond holds are re-armed by a goroutine of their own: a key that lost one is `unsure` (its value / its
+survival as an empty key is not predicted). -/
+
+structure RHold where
+  id : Nat
+  depth : Nat
+  count : Nat
+  rcount : Nat
+  eflag : Nat               -- full ExpriedFlag of the current command
+  deadline : Option Int     -- `none` = 0x7fff…ffff
+  long : Bool               -- sits in the long expiry table
+  deriving DecidableEq, Repr
+
+structure RKey where
+  db : Nat
+  key : Nat
+  holds : List RHold        -- head = currentLock
+  value : Option Bytes
+  zombie : Bool
+  unsure : Bool
+  deriving DecidableEq, Repr
+
+abbrev RState := List RKey
+
+def RKey.locked (k : RKey) : Nat := (k.holds.map (·.depth)).foldl (· + ·) 0
+
+def isMsFlag (ef : Nat) : Bool := ef &&& EXPRIED_FLAG_UNLIMITED_EXPRIED_TIME = 0 ∧ ef &&& EXPRIED_FLAG_MILLISECOND_TIME ≠ 0
+
+/-- `AddLock` / `UpdateLockedLock` + `AddExpried`: long table iff persist-now flag and more than 5 s to live. -/
+def placeLong (ef : Nat) (now : Int) (d : Option Int) : Bool :=
+  if isMsFlag ef then false
+  else decide (ef &&& 0x100 ≠ 0) && (match d with | none => true | some x => decide (x - now > 5))
+
+/-- `ProcessLockData` for the frames a journal carries (the current value as a SET frame; UNSET). -/
+def applyFrame (k : RKey) (data : Option Bytes) : RKey :=
+  match data with
+  | none => k
+  | some f =>
+    let ct := byteAt f 4 &&& 0x3f
+    if byteAt f 4 / 64 ≠ 0 then k                                   -- not the current stage: ignored
+    else if ct = 0 then { k with value := some f }
+    else if ct = 1 then { k with value := none }
+    else { k with unsure := true }
+
+def RState.getKey (st : RState) (db key : Nat) : RKey :=
+  (st.find? (fun k => k.db = db ∧ k.key = key)).getD ⟨db, key, [], none, false, false⟩
+
+def RState.setKey (st : RState) (k : RKey) : RState :=
+  if st.any (fun x => x.db = k.db ∧ x.key = k.key) then st.map (fun x => if x.db = k.db ∧ x.key = k.key then k else x)
+  else st ++ [k]
+
+def RState.dropKey (st : RState) (db key : Nat) : RState := st.filter (fun x => ¬ (x.db = db ∧ x.key = key))
+
+/-- after a lock object was freed: the lock manager goes when nothing refers to it any more -/
+def RState.settle (st : RState) (k : RKey) : RState :=
+  if k.holds.isEmpty ∧ ¬ k.zombie ∧ ¬ k.unsure then st.dropKey k.db k.key else st.setKey k
+
+/-- `UpdateLockedLock` (+ the re-arming of the update / re-lock branches of `LockDB.Lock`). -/
+def rearm (now : Int) (h : RHold) (r : JRec) (e' depth : Nat) : RHold :=
+  let d := if r.eflag &&& EXPRIED_FLAG_UNLIMITED_EXPRIED_TIME ≠ 0 ∧ e' = 0xffff then h.deadline else engineDeadline r.eflag e' now
+  let long := if h.long then (if isMsFlag r.eflag then false else if d ≠ h.deadline then placeLong r.eflag now d else true) else false
+  { h with depth := depth, count := r.count, rcount := r.rcount, eflag := r.eflag, deadline := d, long := long }
+
+inductive Treat
+  | skipped          -- dropped by LoadAofFile's expired-record filter
+  | zeroNoHold       -- LOCK replayed with Expried = 0: no hold / no level
+  | newHold | level | updated
+  | updateRefused    -- CheckLockedEqual: "equal", terms not updated
+  | levelRefused     -- depth > Rcount
+  | notAdmitted      -- doLock false
+  | unlockedOne | unlockedAll
+  | unlockNoHold     -- UNLOCK of a hold that is not there
+  deriving DecidableEq, Repr
+
+def reloadStep (now : Int) (st : RState) (r : JRec) : RState × Treat :=
+  if skippedAt r.eflag r.stored r.ct.toNat now then (st, .skipped)
+  else
+    let e' := loadRemaining r.eflag r.stored r.ct now
+    let k := st.getKey r.db r.key
+    if r.isLock then
+      match (if k.locked > 0 then k.holds.find? (·.id = r.id) else none) with
+      | some h =>
+        if r.flag &&& 0x02 ≠ 0 then
+          let k1 := applyFrame k r.data
+          let eq := Slock.Gen.K.checkLockedEqual now (h.deadline.getD maxInt64) r.eflag e'
+            (Slock.Gen.K.checkLockedCountEqual r.count r.rcount 0 h.count h.rcount 0)
+          if eq then (st.setKey k1, .updateRefused)
+          else
+            let h' := rearm now h r e' h.depth
+            (st.setKey { k1 with holds := k1.holds.map (fun x => if x.id = r.id then h' else x),
+                                 unsure := k1.unsure || (isMsFlag h.eflag != isMsFlag r.eflag) }, .updated)
+        else if h.depth < 255 ∧ h.depth ≤ r.rcount then
+          if e' = 0 then (st, .zeroNoHold)
+          else
+            let k1 := applyFrame k r.data
+            let h' := rearm now h r e' (h.depth + 1)
+            (st.setKey { k1 with holds := k1.holds.map (fun x => if x.id = r.id then h' else x),
+                                 unsure := k1.unsure || (isMsFlag h.eflag != isMsFlag r.eflag) }, .level)
+        else (st, .levelRefused)
+      | none =>
+        let cur := (k.holds.head?.map (·.count)).getD 0
+        if Slock.Gen.K.doLock k.locked cur r.count 0 0 then
+          if e' > 0 then
+            let d := engineDeadline r.eflag e' now
+            let k1 := applyFrame { k with holds := k.holds ++ [⟨r.id, 1, r.count, r.rcount, r.eflag, d, placeLong r.eflag now d⟩] } r.data
+            (st.setKey k1, .newHold)
+          else
+            (st.settle (applyFrame k r.data), .zeroNoHold)
+        else (st, .notAdmitted)
+    else
+      if k.locked = 0 then (st, .unlockNoHold)
+      else match k.holds.find? (·.id = r.id) with
+        | none => (st, .unlockNoHold)
+        | some h =>
+          if h.depth > 1 ∧ r.rcount > 0 then
+            let k1 := applyFrame k r.data
+            (st.setKey { k1 with holds := k1.holds.map (fun x => if x.id = r.id then { x with depth := x.depth - 1 } else x) }, .unlockedOne)
+          else
+            let k1 := applyFrame k r.data
+            let k2 := { k1 with holds := k1.holds.filter (fun x => x.id ≠ r.id),
+                                zombie := k1.zombie || (!h.long && !isMsFlag h.eflag),
+                                unsure := k1.unsure || isMsFlag h.eflag }
+            (st.settle k2, .unlockedAll)
+
+def reload (now : Int) (rs : List JRec) : RState := rs.foldl (fun st r => (reloadStep now st r).1) []
+
+/-! ### Why a restart differs from what the journal means: the first record of a key that `reload` treats harmfully -/
+
+inductive ReplayClass
+  | levelRecordExpired      -- a LOCK record that accounts for a level of a hold that is still alive is dropped / replayed with Expried 0
+  | updateRecordExpired     -- an update (0x02) record of a hold that exists is dropped / replayed with Expried 0: the older terms stay
+  | unlockRecordExpired     -- an UNLOCK record is dropped while its hold exists: the hold stays
+  | updateWithinTolerance   -- an update record is refused by CheckLockedEqual's tolerance against the replayed (not the original) hold
+  | valueOfEndedHoldLost    -- the dropped record of an ended hold carried the key's value
+  | other
+  deriving DecidableEq, Repr
+
+def ReplayClass.name : ReplayClass → String
+  | .levelRecordExpired => "level-record-expired"
+  | .updateRecordExpired => "update-record-expired"
+  | .unlockRecordExpired => "unlock-record-expired"
+  | .updateWithinTolerance => "update-within-tolerance"
+  | .valueOfEndedHoldLost => "value-of-ended-hold-lost"
+  | .other => "other"
+
+def JHold.aliveAt (h : JHold) (now : Int) : Bool := match h.deadline with | none => true | some d => decide (d > now)
+
+/-- The class of ONE record's treatment (`none` = harmless), given the reload state before it and the ideal final state. -/
+def treatClass (now : Int) (st : RState) (idealFinal : JState) (r : JRec) (t : Treat) : Option ReplayClass :=
+  let held := (st.getKey r.db r.key).holds.any (·.id = r.id)
+  match t with
+  | .skipped | .zeroNoHold =>
+    if ¬ r.isLock then (if held then some .unlockRecordExpired else none)
+    else if r.flag &&& 0x02 ≠ 0 ∧ held then some .updateRecordExpired
+    else if ((idealFinal.get r.db r.key r.id).map (·.aliveAt now)).getD false then some .levelRecordExpired
+    else if r.data.isSome then some .valueOfEndedHoldLost
+    else none
+  | .updateRefused =>
+    -- harmless when the refused terms ARE the hold's terms (same unit, deadline within a second); harmful when the unit differs
+    -- or a minute-unit deadline is off by more than a second (the tolerance is 60 s against an already rounded replayed hold)
+    match (st.getKey r.db r.key).holds.find? (·.id = r.id) with
+    | none => none
+    | some h =>
+      let d := engineDeadline r.eflag (loadRemaining r.eflag r.stored r.ct now) now
+      let off : Bool := match d, h.deadline with
+        | some a, some b => decide (a - b > 1 ∨ b - a > 1)
+        | none, none => false
+        | _, _ => true
+      if r.eflag &&& 0x4440 ≠ h.eflag &&& 0x4440 ∨ off then some .updateWithinTolerance else none
+  | .notAdmitted | .levelRefused => some .other
+  | _ => none
+
+/-- Per key: the first harmful treatment (a lost value only when nothing else happened to the key). -/
+def classifyFrom (now : Int) (idealFinal : JState) : RState → List JRec → List ((Nat × Nat) × ReplayClass) → List ((Nat × Nat) × ReplayClass)
+  | _, [], acc => acc
+  | st, r :: rs, acc =>
+    let (st', t) := reloadStep now st r
+    let acc' := match treatClass now st idealFinal r t with
+      | none => acc
+      | some c =>
+        match acc.find? (·.1 = (r.db, r.key)) with
+        | none => acc ++ [((r.db, r.key), c)]
+        | some (_, .valueOfEndedHoldLost) =>
+          if c = .valueOfEndedHoldLost then acc else acc.map (fun p => if p.1 = (r.db, r.key) then (p.1, c) else p)
+        | some _ => acc
+    classifyFrom now idealFinal st' rs acc'
+
+def classifyReplay (now : Int) (rs : List JRec) : List ((Nat × Nat) × ReplayClass) :=
+  classifyFrom now (recover rs) [] rs []
+
 end Slock.Aof
